@@ -175,6 +175,8 @@ class ST:
             if isinstance(x, bool):
                 return int(x)
             return z3.If(x, 1, 0) if (is_z3(x) and z3.is_bool(x)) else x
+        if isinstance(op, ast.Mult) and getattr(a, "dtype", None) == "bool" and getattr(b, "dtype", None) == "bool":
+            return ST.ew(I, ct.sc_and, a, b, dtype="bool")  # torch: bool * bool is the conjunction, dtype bool
         if isinstance(op, (ast.Add, ast.Sub, ast.Mult)) and ("bool" in (getattr(a, "dtype", None), getattr(b, "dtype", None))):
             f_ = {ast.Add: sc_add_g, ast.Sub: (lambda x, y: sc_add_g(x, ct.sc_neg(y))), ast.Mult: (lambda x, y: s_mul(I, x, y))}[type(op)]
             other_dt = [getattr(x, "dtype", None) for x in (a, b) if getattr(x, "dtype", None) not in (None, "bool")]
